@@ -127,7 +127,7 @@ impl Check for C19 {
         "E2: sender host (real KeyspaceGroup + actors + ReplicationService on the real Server) and receiver host (real ReplicationClient::get_state, including its unchecked nested decode) over simulated TCP/HTTP2; garbage arm: a same-URI impostor service answers with an undecodable nested state inside a valid outer frame"
     }
     fn rule(&self) -> &'static str {
-        "Cases: sender states built through the real actor from seeded histories: 0 / tombstone-only / 1..5000 entries, 1-255 origins, both sources, timestamps spread over 4 ms .. 12 h (so per-origin purge cut-offs differ), optionally purged; the history is applied in 1-4 slices (one may be empty) with an optional purge after each, and the receiver fetches after every slice, so consecutive fetches are separated by writes, by a purge only, or by nothing; sizes sweep the nested payload's length and alignment classes. Oracle: the set the receiver obtains lists the same live ids, tombstones and timestamps as (a) the sender's own Serialize output (validated decode) and (b) a set of the harness's own to which the same history and purges were applied, answers will_apply identically on a probe grid around every stored stamp (-1 h, -4 ms, 0, +4 ms, +1 h; held and fresh keys) and around every origin's cut-off, and yields the same diff for seeded third-party sets. Garbage arm (each in its own worker process): nested state empty / random bytes / truncated / one byte flipped -> get_state must return Err, not a set (a returned set, a panic or a crash is the violation). Non-trivial = >= 2 entries or a garbage case. Distinct = hash of (history seed, size, origins, garbage kind)."
+        "Cases: sender states built through the real actor from seeded histories: 0 / tombstone-only / 1..5000 operations (one case early in every run and one in 150 after that: 60 000-260 000 operations, a state of several hundred KiB), 1-255 origins, both sources, timestamps spread over 4 ms .. 12 h (so per-origin purge cut-offs differ), optionally purged; the history is applied in 1-4 slices (one may be empty) with an optional purge after each, and the receiver fetches after every slice, so consecutive fetches are separated by writes, by a purge only, or by nothing; sizes sweep the nested payload's length and alignment classes. Oracle: the set the receiver obtains lists the same live ids, tombstones and timestamps as (a) the sender's own Serialize output (validated decode) and (b) a set of the harness's own to which the same history and purges were applied, answers will_apply identically on a probe grid around every stored stamp (-1 h, -4 ms, 0, +4 ms, +1 h; held and fresh keys) and around every origin's cut-off, and yields the same diff for seeded third-party sets. Garbage arm (each in its own worker process): nested state empty / random bytes / truncated / one byte flipped -> get_state must return Err, not a set (a returned set, a panic or a crash is the violation). Non-trivial = >= 2 entries or a garbage case. Distinct = hash of (history seed, size, origins, garbage kind)."
     }
     fn assumptions(&self) -> Vec<String> {
         vec![
@@ -150,14 +150,17 @@ impl Check for C19 {
     }
     fn generate(&self, seed: u64, idx: u64, _tier: Tier) -> Value {
         let mut rng = rng_from(case_seed(seed, idx));
+        // "states of any size": one very large state early in every run and one case in 150 after that
+        let huge = idx == 11 || mix(0xB19, idx) % 150 == 0;
         let entries = match rng.gen_range(0..10) {
+            _ if huge => rng.gen_range(60_000..260_000),
             0 => 0,
             1 => 1,
             2 => rng.gen_range(1_000..5_000),
             3 => rng.gen_range(100..1_000),
             _ => rng.gen_range(1..64),
         };
-        let garbage = if rng.gen_bool(0.12) { Some(["empty", "random", "truncated", "flipped"][rng.gen_range(0..4)].to_string()) } else { None };
+        let garbage = if !huge && rng.gen_bool(0.12) { Some(["empty", "random", "truncated", "flipped"][rng.gen_range(0..4)].to_string()) } else { None };
         serde_json::to_value(Scenario {
             history_seed: rng.gen(),
             entries,
